@@ -89,6 +89,15 @@ def _export_sources(fn):
     def merge_truth(old, new):
         return old if new is None else new
 
+    def alias_of(e, env):
+        """the object whose set `e` denotes without copying it (an attribute of another object, or a local that is such an alias), else None"""
+        t = src(e)
+        if t in ATOMS:
+            return t
+        if isinstance(e, ast.Name):
+            return env.get("__alias__", {}).get(e.id)
+        return None
+
     def assign(env, name, val, state_truth):
         outs = []
         if isinstance(val, ast.IfExp):
@@ -98,10 +107,12 @@ def _export_sources(fn):
                     continue
                 e2 = dict(env)
                 e2[name] = atoms(arm, env)
+                e2["__alias__"] = {**env.get("__alias__", {}), name: alias_of(arm, env)}
                 outs.append((merge_truth(state_truth, tr), e2))
             return outs
         e2 = dict(env)
         e2[name] = atoms(val, env)
+        e2["__alias__"] = {**env.get("__alias__", {}), name: alias_of(val, env)}
         return [(state_truth, e2)]
 
     def block(stmts, states):
@@ -120,10 +131,14 @@ def _export_sources(fn):
                 elif isinstance(st, ast.AugAssign) and src(st.target) == "self.export_options":
                     a, f = atoms(st.value, env)
                     e2 = dict(env)
+                    if env.get("__alias__", {}).get("self"):
+                        e2["__mutates_alias__"] = (env["__alias__"]["self"], src(st), st.lineno)
                     e2["self"] = (env["self"][0] | a, env["self"][1] or f or not isinstance(st.op, ast.BitOr))
                     nxt.append((truth, e2))
-                elif isinstance(st, ast.Expr) and isinstance(st.value, ast.Call) and src(st.value.func) in ("self.export_options.update", "self.export_options.__ior__"):
+                elif isinstance(st, ast.Expr) and isinstance(st.value, ast.Call) and src(st.value.func) in ("self.export_options.update", "self.export_options.__ior__", "self.export_options.add"):
                     e2 = dict(env)
+                    if env.get("__alias__", {}).get("self"):
+                        e2["__mutates_alias__"] = (env["__alias__"]["self"], src(st), st.lineno)
                     a, f = set(env["self"][0]), env["self"][1]
                     for x in st.value.args:
                         a2, f2 = atoms(x, env)
@@ -157,6 +172,8 @@ def _export_sources(fn):
         if key not in seen and (a or f):
             seen.add(key)
             out.append((truth, set(a), f))
+    _export_sources.alias_mutations = sorted({env["__mutates_alias__"] for _, env in finals if "__mutates_alias__" in env})
+    _export_sources.final_aliases = sorted({env.get("__alias__", {}).get("self") for _, env in finals if env.get("__alias__", {}).get("self")})
     return out
 
 
@@ -249,6 +266,21 @@ def run(ctx):
             f"{m.rel}:Job.__init__:export_options",
             f"on the path where parent_job is {'absent' if parent_truth is False else 'present'}, the job's exported option names are built from {sorted(sources)}"
             f"{' through a non-union operation' if filtered else ''}; missing {missing}: names exported by an ancestor (or by the task/expression) stop reaching descendants",
+            m.rel,
+            ji.lineno,
+        )
+    for owner, stmt_txt, line in getattr(_export_sources, "alias_mutations", []):
+        r3.violation(
+            f"{m.rel}:Job.__init__:export_options:aliased-mutation",
+            f"`{stmt_txt}` grows the set in place while self.export_options is the very object `{owner}` (assigned without a copy): the names this job exports are added to its "
+            "parent's (or its task's) set as well, so they reach siblings and ancestors, not only descendants",
+            m.rel,
+            line,
+        )
+    for owner in getattr(_export_sources, "final_aliases", []):
+        r3.violation(
+            f"{m.rel}:Job.__init__:export_options:shared-object",
+            f"a job's export_options is the same set object as `{owner}`: later growth of either one changes the other (exported names no longer accumulate strictly downwards)",
             m.rel,
             ji.lineno,
         )
